@@ -8,13 +8,14 @@ static Json acc_json(const Access &a) {
     if (!a.imap.empty()) j.set("imap", Json::from(a.imap));
     if (!a.nstart.empty()) { Json s = Json::arr(), c = Json::arr(); for (auto &x : a.nstart) s.push(Json::from(x)); for (auto &x : a.ncount) c.push(Json::from(x)); j.set("nstart", s).set("ncount", c); }
     j.set("memtype", a.memtype).set("flexible", a.flexible).set("bufkind", a.bufkind).set("invalid", a.invalid);
+    if (a.vrank >= 0) j.set("vrank", a.vrank);
     return j;
 }
 static Access acc_from(const Json &j) {
     Access a; a.active = j.at("active").num(1); a.form = (int)j.at("form").num(); a.start = j.at("start").ints(); a.count = j.at("count").ints();
     a.stride = j.at("stride").ints(); a.imap = j.at("imap").ints();
     for (auto &x : j.at("nstart").a) a.nstart.push_back(x.ints()); for (auto &x : j.at("ncount").a) a.ncount.push_back(x.ints());
-    a.memtype = (int)j.at("memtype").num(); a.flexible = j.at("flexible").num(); a.bufkind = (int)j.at("bufkind").num(); a.invalid = (int)j.at("invalid").num();
+    a.memtype = (int)j.at("memtype").num(); a.flexible = j.at("flexible").num(); a.bufkind = (int)j.at("bufkind").num(); a.invalid = (int)j.at("invalid").num(); a.vrank = (int)j.at("vrank").num(-1);
     return a;
 }
 static Json op_json(const Op &op) {
